@@ -14,7 +14,8 @@
 EXTENDS FlatOps, Json
 
 CONSTANTS MsgT, Msgs,      \* message type and the sequence of message byte strings to send (each already cut to size())
-          ChunkMax, FaultMax, Retry, ErrKinds, Record
+          ChunkMax, FaultMax, Retry, ErrKinds, Record,
+          AbandonMax   \* how many messages may be emplaced under a SendGuard that is then dropped without send()
 
 VARIABLES mi,        \* index of the message being sent (1..Len(Msgs)+1)
           spc,       \* "idle" "writing" / terminal: "done" "poisoned"
@@ -23,24 +24,34 @@ VARIABLES mi,        \* index of the message being sent (1..Len(Msgs)+1)
           rets,      \* per finished send: "ok" / "err"
           wcalls, faults, retries,
           stuck,     \* "no", or the failure ("zero" / "err") the pipe now answers forever (persistent fault)
+          abandons,  \* guards dropped without send() so far
           path
-vars == <<mi, spc, pos, sink, rets, wcalls, faults, retries, stuck, path>>
-View == <<mi, spc, pos, sink, rets, wcalls, faults, retries, stuck>>
+vars == <<mi, spc, pos, sink, rets, wcalls, faults, retries, stuck, abandons, path>>
+View == <<mi, spc, pos, sink, rets, wcalls, faults, retries, stuck, abandons>>
 
 Ev(e, n) == [e |-> e, n |-> n, m |-> mi, pos |-> pos, kind |-> ""]
 EvK(e, n, ek) == [e |-> e, n |-> n, m |-> mi, pos |-> pos, kind |-> ek]
 Log(ev) == path' = IF Record THEN Append(path, ev) ELSE path
 
-Init == mi = 1 /\ spc = "idle" /\ pos = 0 /\ sink = <<>> /\ rets = <<>> /\ wcalls = 0 /\ faults = 0 /\ retries = 0 /\ stuck = "no" /\ path = <<>>
+Init == mi = 1 /\ spc = "idle" /\ pos = 0 /\ sink = <<>> /\ rets = <<>> /\ wcalls = 0 /\ faults = 0 /\ retries = 0 /\ stuck = "no" /\ abandons = 0 /\ path = <<>>
 
 Cur == Msgs[mi]
 
 Begin ==           \* alloc + new_in_place + send(): write_all(size) starts
   /\ spc = "idle" /\ mi <= Len(Msgs)
   /\ spc' = "writing" /\ pos' = 0 /\ wcalls' = 0 /\ retries' = 0
-  /\ UNCHANGED <<mi, sink, rets, faults, stuck, path>>
+  /\ UNCHANGED <<mi, sink, rets, faults, stuck, abandons, path>>
 
 Finish(r) == /\ rets' = Append(rets, r) /\ mi' = mi + 1
+
+\* Sender::alloc + UninitSendGuard::new_in_place, then the SendGuard is dropped without send() (SendGuard has no Drop:
+\* the buffer window stays allocated, IoBuffer::alloc of the next message finds no vacancy and hands out the same
+\* bytes).  No pipe call is made, nothing reaches the sink, the sender is not poisoned and the next message is sent
+\* as if the abandoned one had never been emplaced.
+Abandon ==
+  /\ spc = "idle" /\ mi <= Len(Msgs) /\ abandons < AbandonMax
+  /\ abandons' = abandons + 1 /\ Finish("dropped") /\ Log(Ev("abandon", 0))
+  /\ UNCHANGED <<spc, pos, sink, wcalls, faults, retries, stuck>>
 
 WriteOk ==
   /\ spc = "writing" /\ pos < Len(Cur) /\ stuck = "no"
@@ -52,7 +63,7 @@ WriteOk ==
             THEN spc' = "idle" /\ Finish("ok")          \* buffer cleared, send returns Ok
             ELSE spc' = "writing" /\ UNCHANGED <<rets, mi>>
   /\ wcalls' = wcalls + 1
-  /\ UNCHANGED <<faults, retries, stuck>>
+  /\ UNCHANGED <<faults, retries, stuck, abandons>>
 
 WriteFail(kind) ==          \* kind: "zero" (write returned 0) or "err"
   /\ spc = "writing" /\ pos < Len(Cur)
@@ -65,11 +76,11 @@ WriteFail(kind) ==          \* kind: "zero" (write returned 0) or "err"
   /\ IF pos > 0 THEN spc' = "poisoned" /\ Finish("err") /\ UNCHANGED retries
      ELSE \/ spc' = "idle" /\ Finish("err") /\ UNCHANGED retries
           \/ kind = "err" /\ retries < Retry /\ retries' = retries + 1 /\ UNCHANGED <<spc, rets, mi>>
-  /\ UNCHANGED <<pos, sink>>
+  /\ UNCHANGED <<pos, sink, abandons>>
 
-AllSent == /\ spc = "idle" /\ mi > Len(Msgs) /\ spc' = "done" /\ UNCHANGED <<mi, pos, sink, rets, wcalls, faults, retries, stuck, path>>
+AllSent == /\ spc = "idle" /\ mi > Len(Msgs) /\ spc' = "done" /\ UNCHANGED <<mi, pos, sink, rets, wcalls, faults, retries, stuck, abandons, path>>
 
-Next == Begin \/ WriteOk \/ WriteFail("zero") \/ WriteFail("err") \/ AllSent
+Next == Begin \/ Abandon \/ WriteOk \/ WriteFail("zero") \/ WriteFail("err") \/ AllSent
 Spec == Init /\ [][Next]_vars /\ WF_vars(Next)
 NextP == Next /\ (Len(path') # Len(path) => PrintT(<<"CASE", ToJson([k |-> "iosend", id |-> "", path |-> path', rets |-> rets', final |-> spc'])>>))
 SpecP == Init /\ [][NextP]_vars
@@ -84,6 +95,8 @@ Partial == IF spc = "writing" THEN SubSeq(Cur, 1, pos)
            ELSE IF spc = "poisoned" THEN SubSeq(Msgs[mi - 1], 1, Len(sink) - Len(OkMsgs)) ELSE <<>>
 SinkFramed == sink = OkMsgs \o Partial
 OkMeansWhole == \A i \in 1..Len(rets) : rets[i] = "ok" => TRUE      \* (whole message in sink: part of SinkFramed)
+\* an abandoned message leaves no byte in the sink (it is not among OkMsgs, so SinkFramed says so) and costs no pipe call
+AbandonSilent == [][rets' # rets /\ rets'[Len(rets')] = "dropped" => sink' = sink /\ wcalls' = wcalls /\ spc' = spc]_vars
 BoundedCalls == spc = "writing" => wcalls <= Len(Cur) + Retry + 1
 PoisonedStops == spc = "poisoned" => ~ENABLED Next
 Terminates == <>(spc \in {"done", "poisoned"})
